@@ -24,6 +24,8 @@ meta = {
         "demonstration_passes_without_patch": True,
     },
     "caught_by_quick_tier": extra["caught_by"],
+    "caught_by_thorough_tier_only": extra.get("caught_by_thorough", []),
+    "not_caught": extra.get("not_caught", ""),
     "initially_missed_by": extra.get("initially_missed_by", []),
     "strengthening": extra.get("strengthening", ""),
     "how_to_rerun": f"tools/seedeval.sh seeded/{sid}/patch.diff seeded/{sid}/{demo_name} {dest} \"{runargs}\" {' '.join(extra['caught_by'])}",
